@@ -55,6 +55,10 @@ ParC(n, d) == [k |-> "pc", name |-> n, hasDef |-> TRUE, def |-> d]
 LName == LibBase @@ ("A" :> Plain(<<ParC(<<Txt(<<"x">>), Call("A", <<>>)>>, <<Txt(<<"p">>)>>), ParC(<<Txt(<<"y">>), Call("A", <<>>)>>, <<Txt(<<"q">>)>>)>>))
 LName2 == LibBase @@ ("A" :> Plain(<<ParC(<<Txt(<<"x">>), Call("B", <<>>)>>, <<Txt(<<"p">>)>>), ParC(<<Txt(<<"y">>), Call("B", <<>>)>>, <<Txt(<<"q">>)>>)>>)) @@ ("B" :> Plain(<<Call("A", <<>>)>>))
 LInvPre == LibBase @@ ("A" :> Plain(<<Inv("pre", <<>>)>>))
+\* redirects that never reach a page (installed by the harness for the marker RDC): Ping -> Pong -> Ping,
+\* Cw -> cw (its own title in the other first-letter case).  Calls to them go nowhere.
+LRdc == LibBase @@ ("RDC" :> Plain(<<>>))
+RdcPages == { <<Call("Ping", <<>>)>>, <<Call("T1", <<Pos(<<Call("Pong", <<>>)>>)>>), Call("Cw", <<>>)>>, <<Call("R1", <<>>)>> }
 CyclicLibs == {LSelf, LMut, LArg, LNamed, LDef, LIf, LFan, LSw, LAlt, LName, LName2}
 AcyclicLibs == {LibBase, LibIf}
 
@@ -121,6 +125,7 @@ Cases ==
          \cup { [lib |-> LibBase, need |-> {"T2"}, page |-> p, o |-> o, enw |-> TRUE] : p \in LoopPages, o \in Opts16 }
     [] Universe = "C05" ->
          { [lib |-> l, need |-> {}, page |-> p, o |-> OptAll, enw |-> TRUE] : l \in CyclicLibs \cup AcyclicLibs, p \in CycPages \cup DeepPages }
+         \cup { [lib |-> LRdc, need |-> {}, page |-> p, o |-> OptAll, enw |-> TRUE] : p \in RdcPages \cup OddNamePages }
     [] Universe = "C13" ->
          { [lib |-> l, need |-> nd, page |-> p, o |-> o, enw |-> e] :
              l \in AcyclicLibs, nd \in Needs, p \in CallPages \cup PfnPages \cup SiblingPages, o \in OptsSel \cup OptsFullHooks, e \in BOOLEAN }
@@ -132,6 +137,7 @@ Cases ==
     [] Universe = "C05Q" ->
          { [lib |-> l, need |-> {}, page |-> p, o |-> OptAll, enw |-> TRUE] : l \in CyclicLibs, p \in CycPages }
          \cup { [lib |-> LibBase, need |-> {}, page |-> p, o |-> OptAll, enw |-> TRUE] : p \in DeepPagesQ \cup OddNamePages }
+         \cup { [lib |-> LRdc, need |-> {}, page |-> p, o |-> OptAll, enw |-> TRUE] : p \in RdcPages }
     [] Universe = "BLOWUP" ->
          { [lib |-> LAlt, need |-> {}, page |-> <<Call("A", <<>>)>>, o |-> OptAll, enw |-> TRUE] }
     [] Universe = "FILE" ->
